@@ -183,6 +183,8 @@ type bigInfo struct {
 	lits map[int]struct{}
 	eqc  map[int]uint64
 	kids []*bigInfo
+	all   map[int]struct{}
+	eqAll map[int]uint64
 }
 
 var bigTab = map[int]*bigInfo{}
@@ -213,28 +215,51 @@ func bigOf(t *Term) *bigInfo {
 	return b
 }
 
-func (b *bigInfo) has(id int) bool {
-	if _, ok := b.lits[id]; ok {
-		return true
+// nested conjunctions form a DAG (merged path conditions share their prefixes): each node keeps, lazily, the set of
+// all literals below it, so that a lookup does not walk the DAG
+func (b *bigInfo) closure() {
+	if b.all != nil {
+		return
 	}
+	if len(b.kids) == 0 {
+		b.all, b.eqAll = b.lits, b.eqc
+		if b.eqAll == nil {
+			b.eqAll = map[int]uint64{}
+		}
+		return
+	}
+	all := make(map[int]struct{}, len(b.lits))
+	eqAll := map[int]uint64{}
 	for _, k := range b.kids {
-		if k.has(id) {
-			return true
+		k.closure()
+		for id := range k.all {
+			all[id] = struct{}{}
+		}
+		for v, x := range k.eqAll {
+			if _, ok := eqAll[v]; !ok {
+				eqAll[v] = x
+			}
 		}
 	}
-	return false
+	for id := range b.lits {
+		all[id] = struct{}{}
+	}
+	for v, x := range b.eqc {
+		eqAll[v] = x
+	}
+	b.all, b.eqAll = all, eqAll
+}
+
+func (b *bigInfo) has(id int) bool {
+	b.closure()
+	_, ok := b.all[id]
+	return ok
 }
 
 func (b *bigInfo) eq(v int) (uint64, bool) {
-	if x, ok := b.eqc[v]; ok {
-		return x, true
-	}
-	for _, k := range b.kids {
-		if x, ok := k.eq(v); ok {
-			return x, true
-		}
-	}
-	return 0, false
+	b.closure()
+	x, ok := b.eqAll[v]
+	return x, ok
 }
 
 func nary(op Op, unit, zero *Term, xs []*Term) *Term {
@@ -972,11 +997,24 @@ func (ec *evalCtx) eval(t *Term) uint64 {
 // The cone of t is ordered once; each assignment is one linear pass over it.
 func satByEnumeration(t *Term, maxVars int) (sat bool, ok bool) {
 	vs := varsOf(t)
-	if len(vs) > maxVars {
-		return false, false
-	}
-	for _, v := range vs {
-		if termList[v].width != 0 {
+	// finite domains: Booleans; bit-vector variables with a declared small interval (the range constraint is part of
+	// every path condition that mentions the variable, so values outside it cannot satisfy the formula) or of <= 8 bits
+	doms := make([][2]uint64, len(vs))
+	total := uint64(1)
+	for i, v := range vs {
+		x := termList[v]
+		switch {
+		case x.width == 0:
+			doms[i] = [2]uint64{0, 1}
+		case x.hasIv && x.hi-x.lo < 256:
+			doms[i] = [2]uint64{x.lo, x.hi}
+		case x.width <= 8:
+			doms[i] = [2]uint64{0, 1<<uint(x.width) - 1}
+		default:
+			return false, false
+		}
+		total *= doms[i][1] - doms[i][0] + 1
+		if total > 1<<uint(maxVars+2) {
 			return false, false
 		}
 	}
@@ -995,7 +1033,7 @@ func satByEnumeration(t *Term, maxVars int) (sat bool, ok bool) {
 		order = append(order, x)
 	}
 	visit(t)
-	if len(order) > 400000 {
+	if len(order) > 400000 || uint64(len(order))*total > 60000000 {
 		return false, false
 	}
 	argIdx := make([][]int, len(order))
@@ -1006,12 +1044,19 @@ func satByEnumeration(t *Term, maxVars int) (sat bool, ok bool) {
 		}
 	}
 	vals := make([]uint64, len(order))
-	n := len(vs)
 	varBit := map[int]int{}
 	for i, v := range vs {
 		varBit[int(v)] = i
 	}
-	for m := 0; m < 1<<uint(n); m++ {
+	cur := make([]uint64, len(vs))
+	for m := uint64(0); m < total; m++ {
+		// mixed-radix decoding of the m-th assignment
+		rest := m
+		for i := range vs {
+			size := doms[i][1] - doms[i][0] + 1
+			cur[i] = doms[i][0] + rest%size
+			rest /= size
+		}
 		for i, x := range order {
 			ai := argIdx[i]
 			var r uint64
@@ -1019,7 +1064,7 @@ func satByEnumeration(t *Term, maxVars int) (sat bool, ok bool) {
 			case OConst:
 				r = x.val
 			case OVar:
-				r = uint64(m>>uint(varBit[x.id])) & 1
+				r = cur[varBit[x.id]]
 			case ONot:
 				r = 1 - vals[ai[0]]
 			case OAnd:
